@@ -636,11 +636,17 @@ class electrical_signal():
         else: 
             signal = np.array(signal, dtype=dtype)
         
+        if signal.dtype == bool:
+            signal = signal.astype(int) # bit patterns ('0110', bool arrays) are sample values 0/1, not logical values
+        
         if noise is not None:
             if isinstance(noise, str):
                 noise = str2array(noise)
             else: 
                 noise = np.array(noise, dtype=dtype)
+            
+            if noise.dtype == bool:
+                noise = noise.astype(int)
             
             if dtype is None:
                 arrays_type = np.result_type(signal, noise) # obtain the most comprehensive type
@@ -1405,11 +1411,17 @@ class optical_signal(electrical_signal):
         else:
             signal = np.array(signal, dtype=dtype)
 
+        if signal.dtype == bool:
+            signal = signal.astype(int) # bit patterns ('0110', bool arrays) are sample values 0/1, not logical values
+
         if noise is not None:
             if isinstance(noise, str):
                 noise = str2array(noise)
             else:
                 noise = np.array(noise, dtype=dtype)
+
+            if noise.dtype == bool:
+                noise = noise.astype(int)
 
             if dtype is None:
                 arrays_type = np.result_type(signal, noise) # obtain the most comprehensive type
